@@ -94,12 +94,41 @@ def s_encode(tier):
     return coding.coding_cases(tier)
 
 
+def huge_case(i, tier):
+    import random as _random
+    rng = _random.Random(4242 + i)
+    width = 14300 + 13 * i
+    bits = format(rng.getrandbits(width) | (1 << (width - 1)), "b")
+    rows = [15] * 16 if i % 2 == 0 else [15, 6, 9, 15, 3, 15, 12, 7, 15, 10, 5, 15, 14, 15, 11, 13]
+    return {"graph": {"k": 2, "rows": rows, "start": 0}, "bits": bits, "table": None if i % 2 == 0 else [7] * 16,
+            "fast": False, "vt": 0}
+
+
+def evaluate_huge(case):
+    """Encode direction against the reference, then the library's own decode of the reference strand."""
+    first = evaluate_encode(case)
+    if not first.ok or first.discard:
+        return first
+    graph = case["graph"]
+    expected, _ = o.ref_encode([int(c) for c in case["bits"]], graph["rows"], graph["k"], graph["start"],
+                               gens.table_rows(case["table"]), False)
+    got = coding.run_decode(case, expected)
+    if isinstance(got, (Raised, str)) or "".join(str(int(x)) for x in got) != case["bits"]:
+        return bad("decode of the reference strand of a %d-bit message failed: %r" % (len(case["bits"]),
+                                                                                      str(got)[:120]))
+    return Outcome(True, True, list(first.classes) + ["message_value>10^4300"])
+
+
 SUBCHECKS = [
     SubCheck("encode_vs_reference", evaluate_encode, strategy=s_encode, examples=(5000, 40000), shards=(12, 16),
              floors={"deg3_met": 100, "deg1_met": 100, "table_at_deg2or3": 100, "multi_radix": 100, "fast": 500},
              rule=RULE),
     SubCheck("decode_walks", evaluate_decode, strategy=walk_cases, examples=(3000, 30000), shards=(8, 16),
              floors={"deg3_met": 100, "table_at_deg2or3": 100, "fast": 200}, rule=RULE),
+    SubCheck("huge_message", evaluate_huge, enum=(lambda tier: 0 if tier == "quick" else 4, huge_case),
+             shards=(1, 4), exhaustive_space="four fixed 14,300-bit messages (value beyond 10^4300, i.e. beyond "
+                                             "CPython's int/str conversion limit), thorough tier only",
+             rule=RULE, timeout=1800.0),
 ]
 
 TECHNIQUE = "property-based differential testing (Hypothesis) against an independent integer-arithmetic reference coder"
